@@ -84,7 +84,6 @@ CONTRACTS = {
         raises={"NoteFormatError": "not is_key(key)"},
         modifies=["param:self"],
         split=[{"bind": {"key": k}} for k in KEYS30] + [{"assume": "not is_key(key) and len(key) >= 1"}],
-        split_covers="len(key) >= 1",
         requires="len(key) >= 1",
         properties=["C04"], battery="key_init",
     ),
